@@ -418,6 +418,9 @@ func vWNoteSites(sites []string) {
 	vWSites.mu.Unlock()
 }
 
+// vWTiny: one case in eight
+func vWTiny(id int) bool { return (uint32(id)*40503)>>13&7 == 0 }
+
 // vWPad: 0..15, spread over the cases
 func vWPad(id int) int { return int((uint32(id) * 2654435761) >> 28) }
 
@@ -465,6 +468,11 @@ func vWRun(t *testing.T, s *vSink, id int, c vWCase) (l vWLine) {
 	pad := make([]byte, c.Pad)
 	rand.Read(pad)
 	payload = append(payload, pad...)
+	// one case in eight carries the smallest payload there is: a message shorter than a cipher block, than the
+	// smallest ciphertext, than any header
+	if vWTiny(id) && c.Pad < 16 {
+		payload = []byte{0x42}
+	}
 
 	// capture what the sender emits
 	var mu sync.Mutex
@@ -1196,9 +1204,10 @@ func TestVerifWireCases(t *testing.T) {
 					b, _ := json.Marshal(l)
 					w.Write(b)
 					w.WriteByte('\n')
-					if p >= 5000 {
-						// the large sizes also with the sender's compression setting flipped (an uncompressed, unencrypted
-						// stream is read from the connection in pieces; a compressed or sealed one from memory)
+					if p >= 5000 || (p == pads[0] && vWTiny(ids[i]) && c.Compatible && c.Attack == "none") {
+						// the large and the smallest sizes also with the sender's compression setting flipped (an uncompressed,
+						// unencrypted stream is read from the connection in pieces, a compressed or sealed one from memory;
+						// a compressed message is never shorter than a cipher block)
 						c2 := c
 						c2.S.Comp = !c.S.Comp
 						l := vWRun(t, s, ids[i], c2)
